@@ -37,7 +37,10 @@ def main():
     demo = open(os.path.join(seeded, "demo.py")).read()
     notes = open(os.path.join(seeded, "notes.md")).read() if os.path.exists(os.path.join(seeded, "notes.md")) else ""
     # make the demonstration location independent
-    demo = re.sub(r"['\"]/tmp/wt_[A-Za-z0-9_]+['\"]", "__import__('os').environ.get('TORCHTT_DIR', '/repo')", demo)
+    demo = re.sub(r"(['\"])/tmp/wt_[A-Za-z0-9_]+\1", "_TD", demo)
+    demo = re.sub(r"(['\"])/tmp/wt_[A-Za-z0-9_]+/", r"_TD + \1/", demo)
+    demo = "import os as _os\n_TD = _os.environ.get('TORCHTT_DIR', '/repo')\n" + demo
+    build_sh = os.path.join(seeded, "build.sh")
     scratch = tempfile.mkdtemp(prefix="vt_seed_")
     os.rmdir(scratch)
     meta = {"property": pid, "ran": []}
@@ -47,6 +50,12 @@ def main():
         dpath = os.path.join(scratch, "_demo.py")
         open(dpath, "w").write(demo)
         env = dict(os.environ, TORCHTT_DIR=scratch, PYTHONPATH=scratch)
+        def maybe_build():
+            if os.path.exists(build_sh):
+                rb = sh(["bash", build_sh], env=dict(os.environ, TORCHTT_DIR=scratch))
+                if rb.returncode != 0:
+                    print("build.sh failed:", rb.stderr[-800:])
+        maybe_build()
         r0 = sh(["/venv/bin/python", dpath], cwd=scratch, env=env)
         meta["demo_unchanged_rc"] = r0.returncode
         ppath = os.path.join(scratch, "_patch.diff")
@@ -55,6 +64,7 @@ def main():
         if ra.returncode != 0:
             print("PATCH DOES NOT APPLY:", ra.stderr)
             return 2
+        maybe_build()
         r1 = sh(["/venv/bin/python", dpath], cwd=scratch, env=env)
         meta["demo_patched_rc"] = r1.returncode
         meta["demo_patched_output"] = (r1.stdout + r1.stderr)[-1500:]
@@ -88,6 +98,8 @@ def main():
             os.makedirs(out, exist_ok=True)
             open(os.path.join(out, "patch.diff"), "w").write(patch)
             open(os.path.join(out, "demo.py"), "w").write(demo)
+            if os.path.exists(build_sh):
+                shutil.copy(build_sh, os.path.join(out, "build.sh"))
             json.dump(meta, open(os.path.join(out, "meta.json"), "w"), indent=1)
             print("kept as", out)
         else:
